@@ -7,6 +7,7 @@
 #include <valarray>
 #include "libcola/shortest_paths.h"
 #include "libcola/cola.h"
+#include "libcola/connected_components.h"
 
 static long long enc(double d)
 {
@@ -79,6 +80,37 @@ int main(int argc, char **argv)
             j.k("elen").ints(elen).k("ideal").i(ideal).k("ld").arr();
             for (double d : ld) j.i(enc(d));
             j.end().k("lg").ints(lg);
+            for (auto r : rs) delete r;
+        }
+        // beyond the statement: cola::connectedComponents / separateComponents on the same graph
+        // (rectangles of different sizes placed on a 6-column grid so that the components' bounding boxes interleave)
+        {
+            vpsc::Rectangles rs;
+            for (int i = 0; i < n; i++) {
+                double x = (i % 6) * 12, y = (i / 6) * 9, w = 4 + (i % 3) * 3, h = 3 + (i % 2) * 4;
+                rs.push_back(new vpsc::Rectangle(x, x + w, y, y + h));
+            }
+            auto q = [](double v) { return (long long)std::llround(v * 1024.0); };
+            j.k("rb").arr();
+            for (auto r : rs) j.arr().i(q(r->getMinX())).i(q(r->getMaxX())).i(q(r->getMinY())).i(q(r->getMaxY())).end();
+            j.end();
+            std::vector<cola::Component *> comps;
+            cola::connectedComponents(rs, es, comps);
+            j.k("comps").arr();
+            for (auto c : comps) {
+                j.obj().k("ids").arr(); for (unsigned id : c->node_ids) j.i(id + 1); j.end();
+                bool same = c->rects.size() == c->node_ids.size();
+                for (size_t k = 0; same && k < c->rects.size(); k++) same = c->rects[k] == rs[c->node_ids[k]];
+                j.k("rectsok").i(same ? 1 : 0).k("edges").arr();
+                for (auto &e : c->edges) j.arr().i(e.first + 1).i(e.second + 1).end();
+                j.end().end();
+            }
+            j.end();
+            cola::separateComponents(comps);
+            j.k("ra").arr();
+            for (auto r : rs) j.arr().i(q(r->getMinX())).i(q(r->getMaxX())).i(q(r->getMinY())).i(q(r->getMaxY())).end();
+            j.end().k("border").arr().i(q(vpsc::Rectangle::xBorder)).i(q(vpsc::Rectangle::yBorder)).end();
+            for (auto c : comps) delete c;
             for (auto r : rs) delete r;
         }
         j.end();
